@@ -78,6 +78,7 @@ def unit_residual_rows(twin=False):
             val = w[-1][1]
             nrow += 1
             ln10 = T("LOG_10")
+            alts = None
             h2o_m = fld0(ex, s, "moles", "R", T("s_h2o", "P"))
             if row in ("MB", "ALK", "EXCH", "SURFACE"):
                 spec = F("moles") - F("f")
@@ -85,32 +86,21 @@ def unit_residual_rows(twin=False):
                 spec = F("f") * ln10
             elif row == "CB":
                 same = tm.eq(T("ph_unknown", "P"), T("charge_balance_unknown", "P"))
-                if B.z3_prove(hy, same)[0] == "proved":
-                    spec = F("moles") - F("f")
-                elif B.z3_prove(hy, tm.not_(same))[0] == "proved":
-                    spec = tm.neg(F("f"))
-                else:
-                    r.add("CB.case_decided", UNDECIDED, "z3", 0, repr(s.pc)[:200]); continue
+                alts = [(h, F("moles") - F("f") if v else tm.neg(F("f"))) for h, v in cases(hy, same)]
             elif row == "MU":
                 spec = T("mass_water_aq_x") * T("mu_x") - (tm.Q("0.5") if not twin else tm.num(1)) * F("f")
             elif row == "MH" and combine:
                 spec = F("moles") - F("f")
                 mo = T("mass_oxygen_unknown", "P")
                 sw = tm.eq(T("mass_water_switch", "I"), tm.num(1, "I"))
-                if B.z3_prove(hy, sw)[0] == "proved":
-                    spec = spec - tm.num(2) * (fld0(ex, s, "moles", "R", mo) - fld0(ex, s, "f", "R", mo))
-                elif B.z3_prove(hy, tm.not_(sw))[0] != "proved":
-                    r.add("MH.case_decided", UNDECIDED, "z3", 0, repr(s.pc)[:200]); continue
+                alts = [(h, spec - tm.num(2) * (fld0(ex, s, "moles", "R", mo) - fld0(ex, s, "f", "R", mo)) if v else spec) for h, v in cases(hy, sw)]
             elif row == "MH2O" and combine:
                 spec = F("moles") - F("f")
             elif row == "MH":
                 spec = (F("moles") - tm.num(2) * h2o_m) - F("f")
                 mo = T("mass_oxygen_unknown", "P")
                 sw = tm.eq(T("mass_water_switch", "I"), tm.num(1, "I"))
-                if B.z3_prove(hy, sw)[0] == "proved":
-                    spec = spec - tm.num(2) * (fld0(ex, s, "moles", "R", mo) - fld0(ex, s, "f", "R", mo))
-                elif B.z3_prove(hy, tm.not_(sw))[0] != "proved":
-                    r.add("MH.case_decided", UNDECIDED, "z3", 0, repr(s.pc)[:200]); continue
+                alts = [(h, spec - tm.num(2) * (fld0(ex, s, "moles", "R", mo) - fld0(ex, s, "f", "R", mo)) if v else spec) for h, v in cases(hy, sw)]
                 wf = [v for ix, v in writes(s, ("f", "f", "R")) if ix == (xi,)]
                 if len(wf) != 1:
                     r.add("MH.f_includes_water_once", FAILED, "symex", 0, repr(wf)[:200])
@@ -123,7 +113,8 @@ def unit_residual_rows(twin=False):
                     r.add("MH2O.f_includes_water_once", FAILED, "symex", 0, repr(wf)[:200])
                 else:
                     U.discharge_eq_real(r, "MH2O.f+=moles(H2O)", hy, wf[0], F("f") + h2o_m)
-            U.discharge_eq_real(r, "%s.residual_equation" % row, hy, val, spec)
+            for h_, spec_ in (alts if alts is not None else [(hy, spec)]):
+                U.discharge_eq_real(r, "%s.residual_equation" % row, h_, val, spec_)
             # the convergence flag is never raised
             cv = s.locals.get(info["names"]["converge"])
             if cv is not tm.sym("L_converge", "I") and cv != tm.num(0, "I"):
